@@ -30,6 +30,24 @@ def run_one(d, pid, in_repo):
         else:
             tmp = tempfile.mkdtemp(prefix="seed_%s_" % d)
             shutil.copytree("/repo/src", os.path.join(tmp, "src"))
+            rc = subprocess.run(["patch", "-s", "-p1", "--dry-run", "-i", os.path.join(p, "patch.diff")], cwd=tmp,
+                                capture_output=True).returncode
+            base = json.load(open(os.path.join(p, "meta.json"))).get("base")
+            if rc != 0 and base:
+                # the change was written against an older commit of /repo and conflicts with a later repair:
+                # run it on that commit's sources (compiled artefacts are taken from the working tree)
+                shutil.rmtree(os.path.join(tmp, "src"))
+                ar = subprocess.run(["git", "-C", "/repo", "archive", base, "src"], capture_output=True, check=True).stdout
+                subprocess.run(["tar", "-x", "-C", tmp], input=ar, check=True)
+                for root, _d, files in os.walk("/repo/src"):
+                    for f in files:
+                        if f.endswith((".so", ".c", ".cpp")) or f == "_version.py":
+                            dst = os.path.join(tmp, os.path.relpath(os.path.join(root, f), "/repo"))
+                            if not os.path.exists(dst):
+                                shutil.copy(os.path.join(root, f), dst)
+            elif rc != 0:
+                print("%-22s %s patch does not apply to the current tree" % (d, pid), flush=True)
+                return (d, pid, -1)
             subprocess.check_call(["patch", "-s", "-p1", "-i", os.path.join(p, "patch.diff")], cwd=tmp)
             env["PYTHONPATH"] = os.path.join(tmp, "src")
         r = subprocess.run([os.path.join(ROOT, "check"), pid, "--tier", "quick"], capture_output=True, text=True, cwd=ROOT, env=env)
